@@ -43,9 +43,11 @@ TDie == Adv /\ ((R.ev = "die" /\ Die) \/ (R.ev = "die2" /\ DieBoth)) /\ UNCHANGE
 TPend == Adv /\ R.ev = "pend" /\ Pend(R.c) /\ UNCHANGED <<obsMade, obsPhase>>
 \* R.late: what the clients that waited were answered with after the last pending call became ready (arrival order)
 TUnpend == Adv /\ R.ev = "unpend" /\ UnpendObs(R.c, R.late) /\ UNCHANGED <<obsMade, obsPhase>>
+TStop == /\ Adv /\ R.ev = "stop" /\ R.nwait = Len(waiting) /\ StopObs(R.released, R.served)
+         /\ obsPhase' = (IF R.stopped THEN "stopped" ELSE "running") /\ UNCHANGED obsMade
 TMade == Adv /\ R.ev = "made" /\ obsMade' = Pad(R.made) /\ UNCHANGED <<vars, obsPhase>>
 
-TNext == TReset \/ TCall \/ TRun \/ TConn \/ TFail \/ TDie \/ TPend \/ TUnpend \/ TMade \/ TEnd
+TNext == TReset \/ TCall \/ TRun \/ TConn \/ TFail \/ TDie \/ TPend \/ TUnpend \/ TStop \/ TMade \/ TEnd
 TSpec == TInit /\ [][TNext]_tvars
 
 \* the call / run outcomes are the model's (a bind call fails iff none of its addresses can be bound; the workers start)
@@ -56,6 +58,8 @@ T_C01_OwnListenersService == C01_OwnListenersService
 T_C07_WaitsThenServed == C07_WaitsThenServed
 \* C07: a client that connects while a service of the worker is pending is not answered yet
 T_C07_NoCallWhilePending == C07_NoCallWhilePending
+\* C01: connections queued at a worker when the server is stopped are closed, none is served afterwards
+T_C01_QueuedReleasedAtStop == C01_QueuedReleasedAtStop
 \* C07 "rebuilds only it" / C08 "replaced": the number of instances each call's factory has built is the model's
 T_B_MadeAsSpec == (pos > 0 /\ Rec[pos].ev = "made") => \A c \in 1..MaxCalls : obsMade[c] = made[c]
 
